@@ -83,3 +83,23 @@ def worker_root(F, name, spawn):
             return name
         cur = f.rec.get("parent")
     return name
+
+
+def thread_roots(F, name, spawn, _seen=()):
+    """where a function's code runs: the spawned closures (threads) and caller-less functions (entry points) from which
+    it is reached; a nested closure runs where the function it is written in runs"""
+    if name in spawn:
+        return {name}
+    if name in _seen:
+        return set()
+    f = F.fn(name)
+    if f is not None and f.kind == "Closure" and f.rec.get("parent"):
+        return thread_roots(F, f.rec["parent"], spawn, _seen + (name,))
+    callers = {g.name for g in F.fns.values() for b, t in g.calls() if t.get("rpath") == name and t["res"] == "item"}
+    callers.discard(name)
+    if not callers:
+        return {name}
+    out = set()
+    for c in callers:
+        out |= thread_roots(F, c, spawn, _seen + (name,))
+    return out
